@@ -103,3 +103,10 @@ func String(name string, n int) string
 func OneOf(name string, table ...string) string
 func EqualFold(a, b string) bool
 func IteBool(c, a, b bool) bool
+
+// AdvanceClock moves the clock of the code under test forward (native: sleeps).
+func AdvanceClock(d int64)
+
+// ForkGoroutineOrder explores every order in which the runnable goroutines of one request are run
+// (together with DeferGoroutines(true): every completion order of a fan-out).
+func ForkGoroutineOrder(on bool)
